@@ -34,6 +34,7 @@ ASSUMPTIONS = [
     'order and columns the reader replays; real arithmetic is compared in witness replays',
     'row index: non-negative int, two-sided slice with non-negative bounds selecting >= 1 row, or strictly '
     'increasing list of 2 (negative bounds and the other index forms are C01\'s subject)',
+    'operand and selector forms added after seeding rounds: unsigned sample dtypes (uint8/uint16), typed NumPy scalar operands (symbolic np.int64; np.float32 from {0.5, 1.5, -2}), first-step column selectors of every form (int list, bool list, bool mask, int/unsigned array, tuple, slice, negative index); later steps use integer lists',
 ]
 STUBS = ['np.memmap / Path.stat (virtual file system)', 'mtscomp.Reader (contract stub, thorough tier)']
 OUTSIDE = ['programs deeper than the bound', 'NumPy arithmetic itself (identical on both sides)']
